@@ -165,12 +165,29 @@ P.manifest = {
             "the model reports for a node is its closeness as defined (C06_hop_count_model_value, "
             "C06_weighted_model_value); one entry per node. In addition a VERIFIED CHECKER (check_dist sound for any "
             "integer-cost adjacency and any vector; check_transpose sound) is evaluated for every source of every "
-            "generated graph (observations 62, 63).",
-    "note": "Per-case only (observation 63): that `reverse()` (Model/Derived.v transcription) yields the transposed "
-            "adjacency and that an undirected adjacency is symmetric - facts about graph construction (C15/C01). Not "
-            "proved: fuel of the weighted loop never exhausted (theorems are for runs that return; none ever ran out). "
-            "Positive weights are a hypothesis of the weighted theorems (the property's own premise; check_dist also "
-            "verifies it per case). Trusted: Coq kernel + vm_compute; harness/printers/diff; modelled not verified: IEEE "
+            "generated graph (observations 62, 63). ROUND 2, END TO END (Proofs/ClosenessStateOk.v, DijkstraFuelOk.v; "
+            "generic name type, from the coherence invariant WF of C01-C03): C06_reverse_transposes(_pairs) / "
+            "C06_reverse_rows_are_predecessor_rows - the successors_vec of reverse() is the TRANSPOSE of the source's: "
+            "row j of the result is, up to the order of its entries, row j of the source's predecessors_vec (same "
+            "indexes always; same weights on single-edge graphs or when all weights are real), and predecessors_vec is "
+            "the transpose of successors_vec (C06_predecessors_transpose_successors); "
+            "C06_undirected_adjacency_symmetric - the successors_vec of an undirected graph is symmetric, weights "
+            "included; C06_dijkstra_total / C06_weighted_no_fuel_exhaustion - the fuel 2+|E|+|V| of the weighted heap "
+            "loop is never exhausted (any costs, any tie choice); C06_closeness_reachable - for EVERY graph reachable "
+            "by any history of add_node(s)/add_edge(s) (positive real weights in weighted mode) closeness_centrality "
+            "returns Ok (no error, panic or fuel exhaustion), one entry per node in node order, and the i-th value is "
+            "the closeness of the definition over the adjacency read off get_all_edges (C06_edge_list_adjacency: one "
+            "entry per stored edge from node i to node j, either orientation when undirected, parallel edges "
+            "separately) with INCOMING distances; C06_closeness_undirected_reachable - on undirected graphs the same "
+            "value over ordinary (outgoing) distances.",
+    "note": "Observation 63 (reverse() yields the transposed adjacency / an undirected adjacency is symmetric) and "
+            "the fuel of the weighted loop were per-case facts until round 2; they are now theorems (see text) and 63 "
+            "is kept as a per-case tie between model and code. Row ORDER inside successors_vec of reverse() is not "
+            "determined (hash iteration): the theorems are membership / Permutation statements, which is all the "
+            "distance theorems use. On a multigraph mixing NaN and real weights inside one group the traversal weight "
+            "(running minimum) depends on the group's order and the weight part of the transposition is not claimed "
+            "(hypothesis weights_transposable); the end-to-end theorem needs no such case (weighted mode requires "
+            "positive real weights - the property's own premise; check_dist also verifies it per case). Trusted: Coq kernel + vm_compute; harness/printers/diff; modelled not verified: IEEE "
             "rounding, IntSet/IntMap iteration order (only sum and length of the result list are used), BinaryHeap (as "
             "'some minimal entry', quantified over in the theorems; observation 61 also compares first/last per case), "
             "rayon collect. Axioms: none.",
